@@ -79,19 +79,14 @@ theorem procP_ev : ∀ (f : Nat) (c : E) (r : Int × Option E), procP f c = some
         cases hm : isMinusPrefix (.prod p xs) with
         | false => simp [procP, hm] at h; subst h; simp [optEv1]
         | true =>
-          match xs, hm, h with
-          | [c0, c1], hm, h =>
-            simp only [procP, hm, if_true] at h
-            cases hr : procP f c1 with
-            | none => simp [hr] at h
-            | some r1 =>
-              have ih := procP_ev f c1 r1 hr
-              simp [hr] at h; subst h
-              have h0 := isPyMinusOne_ev ρ (c := c0) (by simpa [isMinusPrefix] using hm)
-              simp only [ev_prod, evProd_cons, evProd_nil, h0, ← ih, Int.neg_mul, Int.mul_one, Int.one_mul]
-          | [], hm, h => simp [isMinusPrefix] at hm
-          | [_], hm, h => simp [procP, hm] at h
-          | _ :: _ :: _ :: _, hm, h => simp [procP, hm] at h
+          simp only [procP, hm, if_true] at h
+          cases hr : procP f (stripMinus (.prod p xs)) with
+          | none => simp [hr] at h
+          | some r1 =>
+            have ih := procP_ev f _ r1 hr
+            rw [ev_stripMinus ρ hm] at ih
+            simp [hr] at h; subst h
+            simp only [Int.neg_mul, ih, Int.neg_neg]
       | ilit v => simp [procP] at h; subst h; simp [optEv1]
       | pyint v => simp [procP] at h; subst h; simp [optEv1]
       | _ => simp [procP, isMinusPrefix] at h; subst h; simp [optEv1]
